@@ -58,11 +58,11 @@ func c18Keys(t testing.TB, r *verifmc.Run) []*c18Key {
 		th := r.Thorough()
 		specs := []spec{{"rsa_1024", 0, true}, {"rsa_1025", 0, true}, {"rsa_1031", 0, true}}
 		for _, b := range []int{1026, 1027, 1028, 1029, 1030, 1032} {
-			specs = append(specs, spec{fmt.Sprintf("gen_%d", b), b, th})
+			specs = append(specs, spec{fmt.Sprintf("rsagen_%d", b), b, th})
 		}
 		specs = append(specs, spec{"rsa_2048", 0, th})
 		if th {
-			specs = append(specs, spec{"rsa_3072", 0, true}, spec{"gen_4096", 4096, true})
+			specs = append(specs, spec{"rsa_3072", 0, true}, spec{"rsagen_4096", 4096, true})
 		}
 		out := make([]*c18Key, len(specs))
 		errs := make([]error, len(specs))
@@ -279,7 +279,7 @@ func TestVerifC18_refcheck(t *testing.T) {
 			fail("%s: reference key inconsistent with crypto/rsa key", k.name)
 			return
 		}
-		if strings.HasPrefix(k.name, "gen_") && fmt.Sprintf("gen_%d", k.sk.N.BitLen()) != k.name {
+		if strings.HasPrefix(k.name, "rsagen_") && fmt.Sprintf("rsagen_%d", k.sk.N.BitLen()) != k.name {
 			fail("%s: generated modulus has %d bits", k.name, k.sk.N.BitLen())
 		}
 		// RSAVP1(RSASP1(m)) = m
@@ -384,12 +384,23 @@ func TestVerifC18_protocol(t *testing.T) {
 	defer r.Finish()
 	vs := &c18Sink{}
 	defer vs.Flush(r) // runs before Finish
-	r.Rule("product of key fixtures x 4 variants x messages {empty,'a',200B} x preparation prefix {01,02,7F}^32 (randomised variants) x " +
-		"salt {01,02,7F}^48 (salted variants) x blinds r {1,N-2,shakeA,2,N-1,2^(bits-1),0x55..,shakeB} plus r=0 and r=p; reduced keys use " +
+	r.Rule("product of key fixtures x 4 variants x messages {empty,'a',200B} x preparation prefix {01,02,7F}^32 (+ SHAKE bytes in thorough; randomised variants) x " +
+		"salt {01,02,7F}^48 (+ SHAKE bytes in thorough; salted variants) x blinds r {1,N-2,shakeA,2,N-1,2^(bits-1),0x55..,shakeB} plus r=0 and r=p; reduced keys use " +
 		"prefix {01}, salts {01,7F}, blinds {1,N-2,shakeA}; non-trivial = distinct (key,variant,message,prefix,salt,blind) whose flow completed")
 	keys := c18Keys(t, r)
 	r.Set("keys", c18KeyNames(keys))
-	bytesAlpha := []byte{0x01, 0x02, 0x7f}
+	type rnd struct {
+		name string
+		b    []byte
+	}
+	alpha := func(n int) []rnd {
+		a := []rnd{{"01", c18Rep(0x01, n)}, {"02", c18Rep(0x02, n)}, {"7f", c18Rep(0x7f, n)}}
+		if r.Thorough() {
+			a = append(a, rnd{"shake", verifmc.Shake(fmt.Sprintf("c18-rnd-%d", n), n)}) // non-constant bytes
+		}
+		return a
+	}
+	prepAlpha, saltAlpha := alpha(32), alpha(48)
 	var groups []*c18Group
 	reduced := 0
 	for _, k := range keys {
@@ -398,31 +409,25 @@ func TestVerifC18_protocol(t *testing.T) {
 		}
 		units, zero, nonUnit := c18Blinds(k, k.full)
 		for _, v := range c18Variants {
-			preps := []byte{0}
+			preps := []rnd{{"-", nil}}
 			if c18Randomized(v) {
-				preps = bytesAlpha
+				preps = prepAlpha
 				if !k.full {
-					preps = bytesAlpha[:1]
+					preps = prepAlpha[:1]
 				}
 			}
-			salts := []byte{0}
+			salts := []rnd{{"-", nil}}
 			if c18Salted(v) {
-				salts = bytesAlpha
+				salts = saltAlpha
 				if !k.full {
-					salts = []byte{0x01, 0x7f}
+					salts = []rnd{saltAlpha[0], saltAlpha[2]}
 				}
 			}
 			for mi := range c18Msgs {
-				for _, pb := range preps {
-					for _, sb := range salts {
-						g := &c18Group{k: k, v: v, mi: mi, blinds: units, zero: zero, nonUnit: nonUnit, prepName: "-", sName: "-"}
-						if c18Randomized(v) {
-							g.prep, g.prepName = c18Rep(pb, 32), fmt.Sprintf("%02x", pb)
-						}
-						if c18Salted(v) {
-							g.salt, g.sName = c18Rep(sb, 48), fmt.Sprintf("%02x", sb)
-						}
-						groups = append(groups, g)
+				for _, pr := range preps {
+					for _, sa := range salts {
+						groups = append(groups, &c18Group{k: k, v: v, mi: mi, blinds: units, zero: zero, nonUnit: nonUnit,
+							prep: pr.b, prepName: pr.name, salt: sa.b, sName: sa.name})
 					}
 				}
 			}
@@ -787,7 +792,7 @@ func TestVerifC18_verifier(t *testing.T) {
 	vs := &c18Sink{}
 	defer vs.Flush(r) // runs before Finish
 	r.Rule("for every key x {salted (sLen 48), zero-salt (sLen 0 = auto in crypto/rsa)} verifier x base encodings {salt 48B, empty salt} of one message: " +
-		"the honest EM, every single-bit flip of its k-byte representative, all 255 wrong trailers, every PS byte set to 01/80/FF, 5 wrong separators, " +
+		"the honest EM, every single-bit flip of its k-byte representative, all 255 wrong trailers, every PS byte set to 81/FF, 5 wrong separators (single-bit ones coincide with the flips), " +
 		"top bits set, other salt lengths {0,1,47,48,49,max-1,max}, DB length off by one, H mismatches, degenerate EMs - each signed with the raw private " +
 		"exponent when below N - plus signature-level alterations {+-1,0,1,N-1,N,N+1,2^(8k)-1,N-s,s+jN, 6 wrong lengths} and altered messages; " +
 		"library verdict must equal rsa.VerifyPSS's; non-trivial = distinct (key,verifier,message,signature)")
@@ -900,7 +905,7 @@ func TestVerifC18_verifier(t *testing.T) {
 	nj := int64(len(jobs))
 	r.RequireCounter("class:EM bit flip", nj*900)
 	r.RequireCounter("class:trailer", nj*247) // 8 of the 255 coincide with bit flips of the last byte
-	r.RequireCounter("class:PS byte non-zero", nj*3*20)
+	r.RequireCounter("class:PS byte non-zero", nj*2*29)
 	r.RequireCounter("class:congruent not below modulus (s+jN)", int64(len(keys)))
 	r.RequireCounter("both_accept", nj+3*6) // >= 1 per job, + the other salt lengths under sLen=auto
 	r.RequireCounter("accepted:other salt length", 3*2*6+3)
